@@ -58,6 +58,15 @@ def ensure_deps(need_atheris=False):
     return True, ''
 
 
+def install_debug_signal():
+    """kill -USR1 <pid> dumps the Python stacks of a (possibly stuck) check process to stderr"""
+    try:
+        import faulthandler, signal
+        faulthandler.register(signal.SIGUSR1, all_threads=True)
+    except Exception:
+        pass
+
+
 def pin_repo():
     """Make `import glom` resolve to the working tree under REPO and nothing else."""
     if sys.path[0] != REPO:
